@@ -39,6 +39,17 @@ claim("C15", "fault_enumeration",
       "listed in known_findings.json and re-found on every run.",
       "TLA+ App spec: spec-derived fault enumeration (callback / parser / syscall) + trace validation")
 
+claim("C19", "model_checking",
+      "spec/Discovery.tla defines Select(tree, arguments, flags) from the user guide (eligibility by extension, directory vs "
+      "--recurse, globs with * ? [..], each file once by identity, error and no-files results); TLC enumerates every tree "
+      "(<=3 entries quick, <=5 thorough, out of a 12-entry universe with nested directories, upper-case and glob-character names) x "
+      "argument list (<=2 of 9 / 20 arguments; <=3 thorough) x --recurse x --alternate-extensions, checks Select's own properties "
+      "(order independence, idempotence, monotone recursion, only eligible existing files) and prints each selection; ALL scenarios "
+      "are replayed into ApplicationFileScanner.determine_files_to_scan on real directory trees and a seeded sample through "
+      "`scan -l`, `scan`, `fix` and api.list_path.",
+      "Trusted: TLC; Python's os.path.normpath as file identity and sorted() as the order; the directory trees built by the harness.",
+      "TLA+ Discovery spec (Select): exhaustive TLC enumeration replayed into the real scanner, CLI and API")
+
 # ---------------------------------------------------------------------------------------------
 if __name__ == "__main__":
     props = [json.loads(l) for l in open("properties.jsonl")]
